@@ -13,7 +13,7 @@ RULE = ("NetSpecs from the full lattice (blocking, pre-emption incl. reroute, re
         "record leaves the system.  Non-trivial: >= 5 customers with >= 2 records and >= 1 customer with a blocked, interrupted or "
         "reneged hop; distinct by spec digest.")
 ASSUMPTIONS = ["a customer moves at most one hop per event (location changes are observed after every event)"]
-WALL = {"quick": 50, "thorough": 540}
+WALL = {"quick": 150, "thorough": 540}
 
 
 def nontrivial(a, spec, res):
@@ -28,4 +28,4 @@ def subchecks(tier):
     prof = common.full_profile(max_nodes=4, horizon=(5.0, 16.0))
     prof.weights.update({"self_loops": 0.6, "jockeying": 0.6, "reneging": 0.4})
     return [system_subcheck("lattice", prof, lambda spec: [Journey()], nontrivial, classes=classes,
-                            n={"quick": 3200, "thorough": 50000}, rule="full lattice; observed journey vs record chain")]
+                            n={"quick": 9600, "thorough": 50000}, rule="full lattice; observed journey vs record chain")]
